@@ -215,4 +215,3 @@ func dropParens(c *vh.Ctx, e *E) *E {
 	}
 	return &d
 }
-
